@@ -76,7 +76,7 @@ func c05BodyAlphabet(p, q string) []string {
 		// over it read inside a counted loop that reuses its name
 		"gw = " + p + " + ++" + p, "gw = " + p + " + (" + p + " = 5)", "gw = {" + p + ": ++" + p + "}", "gw = [" + p + ", ++" + p + ", " + p + "]", "gw = " + p + " * 10 + (" + p + " = " + p + " + 1)", "gw = h(" + p + ") - h(++" + p + ")", "for " + p + " = [5, 6] { println(" + p + ") }", p + "()",
 		"g = func() { " + p + " }; for " + p + " = 2 { println(g()) }",
-		"aa = [1, 2, 3, 4, 5, 6, 7]; gw = aa[" + p + ":++" + p + "]", "gw = quote(" + p + " + 1)", "for i = 2 { println(quote(i), quote(" + p + ")) }",
+		"aa = [1, 2, 3, 4, 5, 6, 7]; gw = aa[" + p + ":++" + p + "]", "gw = quote(" + p + " + 1)", "gw = quote(unquote(" + p + ") + 1)", "for i = 2 { gw = quote(unquote(i) + unquote(" + p + ")) }", "for i = 2 { println(quote(i), quote(" + p + ")) }",
 		// the value of a loop expression is the last value of its body
 		"gw = for i = 4 { if i == 2 { break }; i }", "gw = for j = 2 { if j == 1 { " + p + " = 50; continue }; " + p + " }", "gw = for j = 3 { if j == 2 { " + p + "++; break }; " + p + " }", "gw = for " + p + " = 3 { " + p + " }", "gw = [for i = 0:3 { i }, for j = 2 { " + p + " }]", "gw = for i = 3 { " + p + " = " + p + " + 1; " + p + " - 1 }",
 		// the parameter used as if it were a container
